@@ -258,6 +258,24 @@ def rule_reindex_like(ctx):
         if g != [True]:
             ctx.violated('R4', fi, e.node, 'only dimensions present in the template are reindexed', node=e.node)
             continue
+        # a shared dimension may be skipped only when the labels are identical *in order* (np.array_equal / np.all(a == b)); a set comparison
+        # (np.isin(...).all(), set(...) ==) also holds for permuted labels, whose data then stay in the old order
+        evf = run(ctx, fi, mode='fork', oracle=lambda a, st: True if (a[0] == 'call' and T.dotted(a[1]) == 'hasattr') else None)
+        fork_guards = [g for q in evf.paths for e2 in q.calls('reindex_axis') for g in e2.guards]
+        extra = [(a, pol) for a, pol in list(e.guards) + fork_guards if not (a[0] == 'cmp' and a[1] == 'in' and a[2] == nm) and not (a[0] == 'call' and T.dotted(a[1]) == 'hasattr')
+                 and not (a[0] == 'cmp' and a[1] == 'is' and a[3] == T.CONST_NONE)]
+        weak = None
+        for a, pol in extra:
+            sh = T.show(a)
+            exact = (a[0] == 'call' and T.dotted(a[1]) in ('np.array_equal', 'np.all') and a[2] and (T.dotted(a[1]) == 'np.array_equal' or (a[2][0][0] == 'cmp' and a[2][0][1] == '==')))
+            if any(x[0] == 'call' and (T.call_name(x) in ('isin', 'in1d', 'issubset') or T.dotted(x[1]) in ('set', 'frozenset', 'sorted')) for x in T.subterms(a)):
+                weak = a
+            elif not exact and not (a[0] == 'cmp' and a[1] == '==' and 'size' in sh):
+                weak = weak or None
+        if weak is not None:
+            ctx.violated('R4', fi, 'dimension skipped on a set comparison', 'reindex_like skips a shared dimension under the test %s: that also holds when the template carries the same labels in '
+                         'another order, so the axis and the data stay in the old order' % T.show(weak)[:80], node=e.node)
+            continue
         if dict(c[3]).get('**') != P_('**kwargs'):
             ctx.violated('R4', fi, e.node, 'keyword options (fill_value, method, raise_error) must be forwarded', node=e.node)
             continue
@@ -278,6 +296,9 @@ def check(ctx):
     c01.rule_locate_many(Renamed(ctx, {'*': 'R6'}))
     # reindex_axis(values, axis=k) fills through put(..., axis=k): the (index, axis) form of _get_indices (shared with C01)
     c01.rule_axis_argument(ctx, rid='R7')
+    # the Dataset variant of reindex_axis (sibling cross-check shared with C14)
+    from . import c14 as _c14
+    _c14.rule_reindex(Renamed(ctx, {'*': 'R9'}))
     # the labels of newly inserted positions are written through Axis.__setitem__ (shared with C05)
     from . import c05 as _c05
     ctx.rule('R8', 'Axis.__setitem__ keeps the widened label buffer it writes into', 1)
